@@ -95,9 +95,10 @@ func (wk *Walk) Find(start Loc) *Path {
 	tested := testedPhis(start.B.Parent())
 	rep := repeatedConds(start.B.Parent())
 	root := &node{b: start.B}
+	root.env = domFacts(start.B, tested)
 	if wk.SeedB != nil {
 		root.lits, _ = litEnv(nil).follow(wk.SeedB, wk.SeedK, rep)
-		root.env = phiEnv(nil).enter(wk.SeedB, start.B, tested)
+		root.env = root.env.enter(wk.SeedB, start.B, tested)
 	}
 	hit, blocked := scan(start.B, start.I)
 	if hit != nil {
@@ -169,9 +170,10 @@ func (wk *Walk) ReachableInstrs(start Loc) []ssa.Instruction {
 	var queue []node
 	if scan(start.B, start.I) {
 		n0 := node{b: start.B}
+		n0.env = domFacts(start.B, tested)
 		if wk.SeedB != nil {
 			n0.lits, _ = litEnv(nil).follow(wk.SeedB, wk.SeedK, rep)
-			n0.env = phiEnv(nil).enter(wk.SeedB, start.B, tested)
+			n0.env = n0.env.enter(wk.SeedB, start.B, tested)
 		}
 		queue = append(queue, n0)
 	}
@@ -422,6 +424,60 @@ func (e phiEnv) enter(pred, succ *ssa.BasicBlock, tested map[*ssa.Phi]bool) phiE
 	if !changed {
 		return e
 	}
+	return out
+}
+
+// domFacts: what the branches that dominate the start block say about tested phis - a walk that
+// starts inside `if !last { … }` knows that the flag was false when it got there. The binding is
+// that of the last crossing of the dominating edge (the phi's block cannot be re-entered between
+// that crossing and the start without crossing the edge again), and it is replaced as soon as the
+// walk re-enters the phi's block.
+func domFacts(b *ssa.BasicBlock, tested map[*ssa.Phi]bool) phiEnv {
+	var out phiEnv
+	for d := b; d != nil && d.Idom() != nil; d = d.Idom() {
+		id := d.Idom()
+		if len(id.Instrs) == 0 {
+			continue
+		}
+		iff, ok := id.Instrs[len(id.Instrs)-1].(*ssa.If)
+		if !ok || len(id.Succs) != 2 {
+			continue
+		}
+		k := -1
+		for i, s := range id.Succs {
+			if len(s.Preds) == 1 && (s == b || s.Dominates(b)) {
+				if k >= 0 {
+					k = -2
+				} else {
+					k = i
+				}
+			}
+		}
+		if k < 0 {
+			continue
+		}
+		phi, nilOp, neg := condPhi(iff.Cond)
+		if phi == nil || !tested[phi] {
+			continue
+		}
+		if _, have := out.get(phi); have {
+			continue // the nearest dominating test wins
+		}
+		truth := k == 0 // the condition held on this edge
+		if neg {
+			truth = !truth
+		}
+		var val ssa.Value
+		if nilOp == token.ILLEGAL {
+			val = ssa.NewConst(constant.MakeBool(truth), phi.Type())
+		} else if (nilOp == token.EQL) == truth {
+			val = ssa.NewConst(nil, phi.Type()) // known nil
+		} else {
+			continue // known non-nil: no value to stand for it
+		}
+		out = append(out, phiBinding{phi, val})
+	}
+	sort.Slice(out, func(i, j int) bool { return out[i].phi.Name() < out[j].phi.Name() })
 	return out
 }
 
